@@ -532,6 +532,15 @@ def gen_c11(rnd, syms, tier):
             # a colour map that is entirely transparent
             if rnd.random() < 0.1:
                 add(v, 'png', rnd.choice([{k: None for k in TYPE_OPTIONS}, dict(dark=None, light=None, quiet_zone=None)]), 'colourful:all-transparent')
+    # exactly two distinct colours, with ONE module type painted in the colour of the other class (the writers' two-colour
+    # shortcuts must not be taken on the strength of the number of colours): every option, PNG and SVG, also with light=None
+    for i, opt in enumerate(TYPE_OPTIONS):
+        is_dark = opt.endswith('dark') or opt == 'dark_module'
+        for j, (fmt, dark, light) in enumerate((('svg', 'blue', 'yellow'), ('png', 'blue', 'yellow'), ('svg', 'black', None), ('png', '#123456', None))):
+            if light is None and is_dark:
+                continue
+            v = ALL_VERSIONS[(7 * i + 11 * j) % len(ALL_VERSIONS)]
+            add(v, fmt, {opt: light if is_dark else dark, 'dark': dark, 'light': light, 'border': rnd.choice([1, 2, None])}, 'colourful:two-colours-crossed')
     # call histories: identical multi-colour arguments for symbols of different size classes (Micro / version < 7 / version >= 7),
     # in this order and reversed — a colour map must not survive from one symbol to the next
     for fmt in ('png', 'svg', 'ppm'):
